@@ -159,7 +159,7 @@ func (p *Parser) parseInclude(parser *Parser) (Node, error) {
 
 	// Expect the block end token
 	if parser.tokenIndex >= len(parser.tokens) ||
-		(parser.tokens[parser.tokenIndex].Type != TOKEN_BLOCK_END &&
+		(!isBlockEndToken(parser.tokens[parser.tokenIndex].Type) &&
 			parser.tokens[parser.tokenIndex].Type != TOKEN_BLOCK_END_TRIM) {
 		return nil, fmt.Errorf("expected block end token after include at line %d, found token type %d with value '%s'",
 			includeLine,
